@@ -220,11 +220,160 @@ fn write_buffer_cases(rep: &Reporter) -> u64 {
     n
 }
 
+// ---------------------------------------------------------------------------------------------
+// overlapping flushes of one WriteBuffer (flush takes &self: the flush worker and an explicit flush may overlap)
+// ---------------------------------------------------------------------------------------------
+
+/// task programs: 'P' push the next fresh update, 'F' flush
+const WB_PROGRAMS: &[(&str, &str)] = &[("F", "PF"), ("FF", "PF"), ("FFPF", "PF"), ("FPF", "PFPF"), ("FF", "PFF")];
+
+struct WbRace {
+    stuck: Option<String>,
+    pushed: Vec<String>,
+    in_store: BTreeSet<String>,
+    still_pending: usize,
+    ops: Vec<String>,
+    flush_results: Vec<String>,
+}
+
+fn wb_race_once(prog: usize, fault: Option<(usize, ObjFault)>, ch: &mut vh::polex::Chooser) -> WbRace {
+    use std::cell::RefCell;
+    use std::rc::Rc;
+    vh::polex::with_runtime(|rt| {
+        rt.block_on(async {
+            let store = VObjStore::new();
+            let cfg = WriteBufferConfig { flush_interval: Duration::from_secs(3600), max_size_bytes: 1 << 20, max_deltas: 1000, backpressure_threshold_bytes: 1 << 24, compression_enabled: false };
+            let wb = Arc::new(WriteBuffer::new(Arc::new(store.clone()), "wb".to_string(), cfg));
+            let counter = Rc::new(RefCell::new(0usize));
+            let pushed: Rc<RefCell<Vec<String>>> = Rc::new(RefCell::new(Vec::new()));
+            let results: Rc<RefCell<Vec<String>>> = Rc::new(RefCell::new(Vec::new()));
+            // one update is in the buffer before the tasks start
+            {
+                let d = delta(0);
+                pushed.borrow_mut().push(d.key.clone());
+                wb.push(d).unwrap();
+                *counter.borrow_mut() = 1;
+            }
+            if let Some(f) = fault {
+                store.set_plan(&[f]);
+            }
+            store.set_yield(true);
+            let mut sched = vh::polex::Sched::new();
+            let (pa, pb) = WB_PROGRAMS[prog];
+            for (name, program) in [("A", pa), ("B", pb)] {
+                let (wb, counter, pushed, results) = (wb.clone(), counter.clone(), pushed.clone(), results.clone());
+                let program: Vec<char> = program.chars().collect();
+                sched.add(
+                    name,
+                    Box::pin(async move {
+                        for op in program {
+                            if op == 'P' {
+                                let n = {
+                                    let mut c = counter.borrow_mut();
+                                    *c += 1;
+                                    *c - 1
+                                };
+                                let d = delta(n);
+                                if wb.push(d.clone()).is_ok() {
+                                    pushed.borrow_mut().push(d.key);
+                                }
+                            } else {
+                                let r = wb.flush().await;
+                                results.borrow_mut().push(format!("{name}:{}", match &r { Ok(Some(k)) => format!("ok {}", k.rsplit('/').next().unwrap_or("")), Ok(None) => "ok empty".to_string(), Err(_) => "failed".to_string() }));
+                            }
+                        }
+                    }),
+                    false,
+                );
+            }
+            let r = sched.run_to_completion(ch, 10_000).await;
+            store.set_yield(false);
+            store.set_plan(&[]);
+            // the process keeps running: flush what is still pending (no faults any more)
+            let mut guard = 0;
+            while wb.pending_count() > 0 && guard < 4 {
+                let _ = wb.flush().await;
+                guard += 1;
+            }
+            let mut in_store = BTreeSet::new();
+            for (k, bytes) in store.image_now() {
+                if let Ok(rd) = redis_sim::streaming::segment::SegmentReader::open(&bytes) {
+                    if let Ok(ds) = rd.read_all() {
+                        in_store.extend(ds.into_iter().map(|d| d.key));
+                    }
+                }
+                let _ = k;
+            }
+            let ops: Vec<String> = store.log().iter().map(|o| format!("{}:{}{}", o.kind, o.key.rsplit('/').next().unwrap_or(""), if o.ok { "" } else { "!" })).collect();
+            let out = WbRace { stuck: r.err(), pushed: pushed.borrow().clone(), in_store, still_pending: wb.pending_count(), ops, flush_results: results.borrow().clone() };
+            out
+        })
+    })
+}
+
+/// All interleavings of the two tasks' store operations x (no fault | one failing or truncating put at call index 0..3).
+fn write_buffer_races(rep: &Reporter, thorough: bool) -> (u64, u64, bool) {
+    let mut execs = 0u64;
+    let mut outcomes: BTreeSet<String> = BTreeSet::new();
+    let mut exhaustive = true;
+    let mut plans: Vec<Option<(usize, ObjFault)>> = vec![None];
+    for i in 0..if thorough { 6 } else { 4 } {
+        plans.push(Some((i, ObjFault::Fail)));
+        plans.push(Some((i, ObjFault::TruncatedPut)));
+    }
+    for prog in 0..WB_PROGRAMS.len() {
+        for plan in &plans {
+            let cfg = vh::polex::DfsConfig { deadline: Some(std::time::Instant::now() + Duration::from_secs(if thorough { 120 } else { 10 })), ..Default::default() };
+            let stats = vh::polex::explore(&cfg, |ch| {
+                let race = wb_race_once(prog, *plan, ch);
+                execs += 1;
+                let replay = json!({"wb_race": true, "program": prog, "fault": plan.map(|(i, f)| json!([i, f.name()])), "schedule": ch.schedule()});
+                let ctx = format!("tasks A=[{}] B=[{}] on one WriteBuffer holding one update, fault {:?}; flushes: {:?}; store ops: {:?}", WB_PROGRAMS[prog].0, WB_PROGRAMS[prog].1, plan.map(|(i, f)| format!("{}@call{}", f.name(), i)), race.flush_results, race.ops);
+                if let Some(e) = &race.stuck {
+                    rep.violation("write-buffer race: stuck".to_string(), format!("{e}; {ctx}"), replay);
+                    return true;
+                }
+                outcomes.insert(format!("{:?}|{:?}", race.flush_results, race.in_store));
+                let lost: Vec<&String> = race.pushed.iter().filter(|k| !race.in_store.contains(*k)).collect();
+                if !lost.is_empty() {
+                    rep.violation(
+                        format!("write-buffer race: accepted-update-lost fault={}", plan.map(|(_, f)| f.name()).unwrap_or("none")),
+                        format!("updates {:?} were accepted by push() and are neither in any stored segment nor pending (pending_count() = {}) after every flush completed and a final fault-free flush; {ctx}", lost, race.still_pending),
+                        replay,
+                    );
+                }
+                true
+            });
+            if stats.truncated {
+                exhaustive = false;
+            }
+        }
+    }
+    (execs, outcomes.len() as u64, exhaustive)
+}
+
 fn main() {
     let args = cli::parse_args();
     vh::quiet_panics();
     if let Some(path) = &args.replay {
         let r = vh::report::load_replay(path);
+        if r["wb_race"] == json!(true) {
+            let prog = r["program"].as_u64().unwrap() as usize;
+            let fault = if r["fault"].is_null() { None } else { Some((r["fault"][0].as_u64().unwrap() as usize, if r["fault"][1] == "fail" { ObjFault::Fail } else { ObjFault::TruncatedPut })) };
+            let schedule: Vec<u32> = r["schedule"].as_array().unwrap().iter().map(|x| x.as_u64().unwrap() as u32).collect();
+            let race = wb_race_once(prog, fault, &mut vh::polex::replay_prefix(&schedule));
+            println!("flushes: {:?}", race.flush_results);
+            println!("store ops: {:?}", race.ops);
+            println!("accepted: {:?}", race.pushed);
+            println!("in stored segments after a final flush: {:?} (still pending: {})", race.in_store, race.still_pending);
+            let lost: Vec<&String> = race.pushed.iter().filter(|k| !race.in_store.contains(*k)).collect();
+            if !lost.is_empty() || race.stuck.is_some() {
+                println!("VIOLATION property=C12 replay={} (write-buffer race: lost {:?} {:?})", path.display(), lost, race.stuck);
+                std::process::exit(1);
+            }
+            println!("replay: no violation");
+            std::process::exit(0);
+        }
         if r["write_buffer"] == json!(true) {
             let rep = Reporter::new("C12", "fault_enumeration", &args);
             write_buffer_cases(&rep);
@@ -316,6 +465,7 @@ fn main() {
         }
     });
     let wb = write_buffer_cases(&rep);
+    let (wb_race_execs, wb_race_outcomes, wb_race_exhaustive) = write_buffer_races(&rep, thorough);
     let coverage = json!({
         "evaluations": cases.len() as u64 + wb,
         "distinct_nontrivial": distinct.lock().unwrap().len(),
@@ -325,6 +475,9 @@ fn main() {
         "cases_in_which_a_fault_fired": faults_hit.load(Ordering::Relaxed),
         "crash_images_recovered": images.load(Ordering::Relaxed),
         "write_buffer_cases": wb,
+        "write_buffer_overlapping_flushes": {"schedules_explored": wb_race_execs, "distinct_outcomes": wb_race_outcomes, "all_schedules_of_every_case_explored": wb_race_exhaustive,
+            "programs": WB_PROGRAMS.iter().map(|(a, b)| format!("A=[{a}] B=[{b}]")).collect::<Vec<_>>(),
+            "rule": "two tasks run their programs (P = push a fresh update, F = flush) on ONE WriteBuffer that already holds an update; the store yields before every operation, so every interleaving of the tasks' store calls is a schedule; fault plan = none, or the put with call index 0..3 (thorough 0..5) fails / leaves a truncated object; when both tasks are done the process keeps running: pending updates are flushed without faults; every update push() accepted must then be in some stored segment"},
         "samples": [cases[1].json(), cases[cases.len() / 2].json()],
         "exhaustive": true,
     });
